@@ -765,18 +765,18 @@ sproof!(c11_fields_v6, 7, { fields_only::<false>(true) });
 
 /// data signatures: document bytes, pk-alg octet, creation time, opaque subpacket (type, critical bit, body),
 /// v6 salt bytes, signed-hash-value octets
-fn c02_data<const L: usize>(v6: bool) {
+fn c02_data<const L: usize, const EXP: bool>(v6: bool) {
     // A
     let doc_a: [u8; L] = kani::any();
     let pk_a: u8 = kani::any();
     let t_a: u32 = kani::any();
     let tt_a: u8 = kani::any();
-    let c_a: bool = kani::any();
+    let c_a: bool = if EXP { kani::any() } else { false };
     let b_a: [u8; 2] = kani::any();
     let mut salt_a = SALT16;
     salt_a[3] = kani::any();
     let typ_a: u8 = kani::any(); // the signed type octet may be anything
-    kani::assume(tt_ok::<true>(tt_a));
+    kani::assume(tt_ok::<EXP>(tt_a));
     let tb = t_a.to_be_bytes();
     let wire_a = [5, 2, tb[0], tb[1], tb[2], tb[3], 3, tt_a | ((c_a as u8) << 7), b_a[0], b_a[1]];
     let mut rt = RefT::new();
@@ -790,13 +790,13 @@ fn c02_data<const L: usize>(v6: bool) {
     let pk_b: u8 = kani::any();
     let t_b: u32 = kani::any();
     let tt_b: u8 = kani::any();
-    let c_b: bool = kani::any();
+    let c_b: bool = if EXP { kani::any() } else { false }; // (unknown critical subpackets are refused: c11_fields_*)
     let b_b: [u8; 2] = kani::any();
     let mut salt_b = SALT16;
     salt_b[3] = kani::any();
     let shv: [u8; 2] = kani::any();
-    kani::assume(tt_ok::<true>(tt_b));
-    let (hashed, _wire_b) = hashed_area::<true>(t_b, tt_b, c_b, b_b[0], b_b[1]);
+    kani::assume(tt_ok::<EXP>(tt_b));
+    let (hashed, _wire_b) = hashed_area::<EXP>(t_b, tt_b, c_b, b_b[0], b_b[1]);
     mk_cfg!(cfg, harr, ustore, v6, SignatureType::Binary, pk_b, salt_b, hashed);
     let key = MockKey::<4>::new(if v6 { KeyVersion::V6 } else { KeyVersion::V4 }, kani::any(), 7);
     match rt.digest(HashAlgorithm::Sha256) {
@@ -820,8 +820,9 @@ fn c02_data<const L: usize>(v6: bool) {
         }
     }
 }
-sproof!(c02_data_v4_2, 10, { c02_data::<2>(false) });
-sproof!(c02_data_v6_2, 10, { c02_data::<2>(true) });
+sproof!(c02_data_v4_2, 10, { c02_data::<2, true>(false) });
+sproof!(c02_data_v4_2_other, 10, { c02_data::<2, false>(false) });
+sproof!(c02_data_v6_2, 10, { c02_data::<2, true>(true) });
 
 /// truncation / extension of the message: signed over LA bytes, presented LB bytes
 fn c02_data_len<const LA: usize, const LB: usize>() {
